@@ -5,9 +5,12 @@ From PG Require Import Lib.Strs Model.Dispatch Model.Response.
 Definition REG : registry := [([73;116;101;109], {| si_named := true; si_type := (Some [111;98;106;101;99;116]); si_props := true; si_enum := false; si_items := None |}); ([67;97;116], {| si_named := true; si_type := (Some [111;98;106;101;99;116]); si_props := true; si_enum := false; si_items := None |}); ([67;111;108;111;114], {| si_named := true; si_type := (Some [115;116;114;105;110;103]); si_props := false; si_enum := true; si_items := None |}); ([80;101;116], {| si_named := true; si_type := None; si_props := false; si_enum := false; si_items := None |}); ([73;116;101;109;115], {| si_named := true; si_type := (Some [97;114;114;97;121]); si_props := false; si_enum := false; si_items := (Some ((Some [73;116;101;109]), (Some [111;98;106;101;99;116]))) |}); ([78;97;109;101;115], {| si_named := true; si_type := (Some [97;114;114;97;121]); si_props := false; si_enum := false; si_items := (Some (None, (Some [115;116;114;105;110;103]))) |}); ([78;97;109;101], {| si_named := true; si_type := (Some [115;116;114;105;110;103]); si_props := false; si_enum := false; si_items := None |}); ([87;104;101;110], {| si_named := true; si_type := (Some [115;116;114;105;110;103]); si_props := false; si_enum := false; si_items := None |}); ([67;111;117;110;116], {| si_named := true; si_type := (Some [105;110;116;101;103;101;114]); si_props := false; si_enum := false; si_items := None |})].
 
 Definition d_F05b : dcase := {| d_reg := REG; d_module := [[{| cr_code := (Num 200); cr_content := [{| c_media := [97;112;112;108;105;99;97;116;105;111;110;47;106;115;111;110]; c_type := (TLib [100;97;116;101;116;105;109;101]); c_binfmt := false |}] |}]]; d_op := 0%nat; d_resp := 0%nat; d_entry := (Some 0%nat) |}.
-Definition d_F05c : dcase := {| d_reg := REG; d_module := [[{| cr_code := (Num 200); cr_content := [{| c_media := [116;101;120;116;47;112;108;97;105;110]; c_type := (TPrim PStr); c_binfmt := false |}] |}]]; d_op := 0%nat; d_resp := 0%nat; d_entry := (Some 0%nat) |}.
+Definition d_F05c : dcase := {| d_reg := REG; d_module := [[{| cr_code := (Num 200); cr_content := [{| c_media := [116;101;120;116;47;101;118;101;110;116;45;115;116;114;101;97;109]; c_type := (TClass [73;116;101;109]); c_binfmt := false |}] |}; {| cr_code := (Num 201); cr_content := [{| c_media := [97;112;112;108;105;99;97;116;105;111;110;47;106;115;111;110]; c_type := (TClass [73;116;101;109]); c_binfmt := false |}] |}]]; d_op := 0%nat; d_resp := 1%nat; d_entry := (Some 0%nat) |}.
+Definition d_F05c_text : dcase := {| d_reg := REG; d_module := [[{| cr_code := (Num 200); cr_content := [{| c_media := [116;101;120;116;47;112;108;97;105;110]; c_type := (TPrim PStr); c_binfmt := false |}] |}]]; d_op := 0%nat; d_resp := 0%nat; d_entry := (Some 0%nat) |}.
+Definition d_F05c_text2 : dcase := {| d_reg := REG; d_module := [[{| cr_code := (Num 200); cr_content := [{| c_media := [97;112;112;108;105;99;97;116;105;111;110;47;106;115;111;110]; c_type := (TClass [73;116;101;109]); c_binfmt := false |}] |}; {| cr_code := (Num 201); cr_content := [{| c_media := [116;101;120;116;47;112;108;97;105;110]; c_type := (TPrim PStr); c_binfmt := false |}] |}]]; d_op := 0%nat; d_resp := 1%nat; d_entry := (Some 0%nat) |}.
 Definition d_F05e : dcase := {| d_reg := REG; d_module := [[{| cr_code := (Num 200); cr_content := [{| c_media := [97;112;112;108;105;99;97;116;105;111;110;47;106;115;111;110]; c_type := (TClass [73;116;101;109]); c_binfmt := false |}; {| c_media := [116;101;120;116;47;112;108;97;105;110]; c_type := (TPrim PStr); c_binfmt := false |}] |}]]; d_op := 0%nat; d_resp := 0%nat; d_entry := (Some 0%nat) |}.
-Definition d_F05f : dcase := {| d_reg := REG; d_module := [[{| cr_code := (Num 200); cr_content := [{| c_media := [97;112;112;108;105;99;97;116;105;111;110;47;120;45;110;100;106;115;111;110]; c_type := (TClass [73;116;101;109]); c_binfmt := false |}] |}]]; d_op := 0%nat; d_resp := 0%nat; d_entry := (Some 0%nat) |}.
+Definition d_F05f_ndjson : dcase := {| d_reg := REG; d_module := [[{| cr_code := (Num 200); cr_content := [{| c_media := [97;112;112;108;105;99;97;116;105;111;110;47;120;45;110;100;106;115;111;110]; c_type := (TClass [73;116;101;109]); c_binfmt := false |}] |}]]; d_op := 0%nat; d_resp := 0%nat; d_entry := (Some 0%nat) |}.
+Definition d_F05f : dcase := {| d_reg := REG; d_module := [[{| cr_code := (Num 200); cr_content := [{| c_media := [97;112;112;108;105;99;97;116;105;111;110;47;106;115;111;110;45;115;101;113]; c_type := (TClass [73;116;101;109]); c_binfmt := false |}] |}]]; d_op := 0%nat; d_resp := 0%nat; d_entry := (Some 0%nat) |}.
 Definition d_F05g : dcase := {| d_reg := REG; d_module := [[{| cr_code := (Other [50;88;88]); cr_content := [{| c_media := [97;112;112;108;105;99;97;116;105;111;110;47;106;115;111;110]; c_type := (TClass [73;116;101;109]); c_binfmt := false |}] |}]]; d_op := 0%nat; d_resp := 0%nat; d_entry := (Some 0%nat) |}.
 Definition d_F05h : dcase := {| d_reg := REG; d_module := [[{| cr_code := (Num 200); cr_content := [{| c_media := [116;101;120;116;47;101;118;101;110;116;45;115;116;114;101;97;109]; c_type := (TClass [73;116;101;109]); c_binfmt := false |}] |}; {| cr_code := (Num 202); cr_content := [] |}]]; d_op := 0%nat; d_resp := 0%nat; d_entry := (Some 0%nat) |}.
 Definition d_F05i : dcase := {| d_reg := REG; d_module := [[{| cr_code := (Num 200); cr_content := [{| c_media := [97;112;112;108;105;99;97;116;105;111;110;47;106;115;111;110]; c_type := (TClass [73;116;101;109]); c_binfmt := false |}] |}; {| cr_code := (Num 201); cr_content := [{| c_media := [97;112;112;108;105;99;97;116;105;111;110;47;106;115;111;110]; c_type := (TClass [67;97;116]); c_binfmt := false |}] |}]]; d_op := 0%nat; d_resp := 1%nat; d_entry := (Some 0%nat) |}.
@@ -23,9 +26,19 @@ Definition guard_bits (d : dcase) : list bool :=
 Theorem refuted_F05b : guard_bits d_F05b = [false; true; true; true]
   /\ the_path d_F05b = PCast /\ the_want d_F05b = WJsonTyped (TLib [100;97;116;101;116;105;109;101]) /\ C05_holds d_F05b = false.
 Proof. repeat split; vm_compute; reflexivity. Qed.
-Theorem refuted_F05c : guard_bits d_F05c = [true; false; true; true]
-  /\ the_path d_F05c = PCast /\ the_want d_F05c = WText /\ C05_holds d_F05c = false.
+(* F05c fixed for text/binary bodies that are the only kind of content of a response (primary or further 2xx) *)
+Example fixed_F05c_text : c05_guard d_F05c_text = true /\ the_path d_F05c_text = PText /\ C05_holds d_F05c_text = true
+  /\ c05_guard d_F05c_text2 = true /\ the_path d_F05c_text2 = PText /\ C05_holds d_F05c_text2 = true.
 Proof. repeat split; vm_compute; reflexivity. Qed.
+(* still open: e.g. a JSON 201 of an SSE operation is read with the SSE parser *)
+Theorem refuted_F05c : guard_bits d_F05c = [true; false; true; false]
+  /\ the_path d_F05c = PStreamSse /\ the_want d_F05c = WJsonTyped (TClass [73;116;101;109]) /\ C05_holds d_F05c = false.
+Proof. repeat split; vm_compute; reflexivity. Qed.
+(* F05f fixed for application/x-ndjson: read with iter_ndjson, one (structured) item per line *)
+Example fixed_F05f_ndjson : c05_guard d_F05f_ndjson = true /\ the_path d_F05f_ndjson = PStreamNdjson true
+  /\ the_want d_F05f_ndjson = WStreamLines /\ the_imported d_F05f_ndjson = true /\ C05_holds d_F05f_ndjson = true.
+Proof. repeat split; vm_compute; reflexivity. Qed.
+(* still open for the other record formats (json-seq, multipart/mixed) *)
 Theorem refuted_F05f : guard_bits d_F05f = [true; true; false; true]
   /\ the_path d_F05f = PStreamSse /\ the_want d_F05f = WStreamItems /\ C05_holds d_F05f = false.
 Proof. repeat split; vm_compute; reflexivity. Qed.
@@ -60,13 +73,6 @@ Proof. repeat split; vm_compute; reflexivity. Qed.
 From PG Require Import Proofs.Dispatch.
 
 (* the structure target is the declared type itself (not a sub-term cut out of the string) *)
-Definition deser_direct (reg : registry) (t : rty) : bool :=
-  match deser_code reg (show t) s_rj with
-  | Some c => str_eqb c (sfd s_rj (show t))
-              || match t with TOpt u => str_eqb c (sfd s_rj (show u) ++ s_if_not_none s_rj) | _ => false end
-  | None => false
-  end.
-
 Definition want_json (t : rty) : want := if needs_structure t then WJsonTyped t else WJsonRaw t.
 
 (* T1: the JSON decode decision.  If the string heuristic agrees with the type's need for structuring, the
@@ -93,13 +99,13 @@ Proof. intros reg t imported Hn Hs. unfold json_path, want_json. rewrite Hs, Hn.
 (* T3/T4: which branch handles a status *)
 Lemma handle_primary : forall reg o r n ct,
   cprocessed o = Some (r, n) ->
-  handle reg o n ct = if is_none_ret (resolve o) then PNone else strategy_path reg (resolve o) ct.
+  handle reg o n ct = if is_none_ret (resolve o) then PNone else strategy_path reg (nd_of o) (pc_of o) (resolve o) ct.
 Proof. intros reg o r n ct H. unfold handle. rewrite H, N.eqb_refl. reflexivity. Qed.
 
 Lemma handle_secondary : forall reg o p n r m ct,
   cprocessed o = Some (p, n) -> m <> n ->
   find_status m (cothers o) = Some r -> lead2 m = true ->
-  handle reg o m ct = secondary_path reg (resolve o) ct r.
+  handle reg o m ct = secondary_path reg (nd_of o) (resolve o) ct r.
 Proof.
   intros reg o p n r m ct Hp Hne Hf Hl. unfold handle. rewrite Hp.
   replace (n =? m) with false by (symmetry; apply N.eqb_neq; congruence).
@@ -113,7 +119,7 @@ Qed.
 Lemma handle_wildcard_primary : forall reg o w st ct,
   cprocessed o = None -> find_status st (cothers o) = None ->
   wildcard_resp o = Some w -> is_strategy_resp o w = true -> 200 <= st < 300 ->
-  handle reg o st ct = if is_none_ret (resolve o) then PNone else strategy_path reg (resolve o) ct.
+  handle reg o st ct = if is_none_ret (resolve o) then PNone else strategy_path reg (nd_of o) (pc_of o) (resolve o) ct.
 Proof.
   intros reg o w st ct Hp Hf Hw Hs Hr. unfold handle. rewrite Hp, Hf, Hw, Hs.
   replace (in_range wildcard_lo wildcard_hi st) with true
@@ -141,6 +147,20 @@ Proof.
   rewrite (handle_primary _ _ _ _ _ Hp), Hr. split; reflexivity.
 Qed.
 
+(* the text/binary accessor never fires for a response that has a JSON-like content entry *)
+Lemma forallb_false_member : forall {A} (f : A -> bool) l x, In x l -> f x = false -> forallb f l = false.
+Proof.
+  intros A f l x Hin Hf. destruct (forallb f l) eqn:E; [|reflexivity]. rewrite forallb_forall in E. rewrite (E x Hin) in Hf. discriminate.
+Qed.
+Lemma raw_none_member : forall cs e t, In e cs ->
+  is_binary_media (c_media e) = false -> prefixb p_text (c_media e) = false -> raw_accessor cs t = None.
+Proof.
+  intros cs e t Hin Hb Ht. unfold raw_accessor. destruct cs as [|c cs']; [destruct Hin|].
+  destruct (negb (mem_str (show t) raw_body_types)); [reflexivity|].
+  rewrite (forallb_false_member (fun x => prefixb p_text (c_media x)) _ e Hin Ht).
+  rewrite (forallb_false_member (fun x => is_binary_media (c_media x)) _ e Hin Hb). reflexivity.
+Qed.
+
 (* T6: a primary response with a single non-stream JSON content entry *)
 Theorem primary_single_json : forall reg o r n e ct imported,
   cprocessed o = Some (r, n) -> cr_content r = [e] -> is_stream r = false -> json_like (c_media e) = true ->
@@ -153,11 +173,21 @@ Proof.
   pose proof (cprocessed_cprimary _ _ _ Hp) as Hprim.
   assert (Hr : resolve o = mk_plain (c_type e)) by (unfold resolve; rewrite Hprim, Hc, Hs; reflexivity).
   rewrite (handle_primary _ _ _ _ _ Hp), Hr.
-  unfold is_none_ret, strategy_path. cbn [mk_plain st_ret st_streaming st_mapping]. rewrite Hnn, Hnu.
-  unfold ideal. rewrite Hs. cbn [andb].
   unfold json_like in Hj. apply andb_true_iff in Hj. destruct Hj as [Hb Ht].
-  apply negb_true_iff in Hb. apply negb_true_iff in Ht. rewrite Hb, Ht.
+  apply negb_true_iff in Hb. apply negb_true_iff in Ht.
+  assert (Hraw : raw_accessor (pc_of o) (c_type e) = None).
+  { apply (raw_none_member _ e); auto. unfold pc_of. rewrite Hprim, Hc. left. reflexivity. }
+  unfold is_none_ret, strategy_path. cbn [mk_plain st_ret st_streaming st_mapping]. rewrite Hnn, Hraw, Hnu.
+  unfold ideal. rewrite Hs. cbn [andb]. rewrite Hb, Ht.
   apply (json_path_delivers reg (c_type e) imported Hh Hd).
+Qed.
+
+Lemma handler_schema_In : forall cs h, handler_schema cs = Some h -> In h cs.
+Proof.
+  intros cs h H. unfold handler_schema in H.
+  destruct (find (fun e => str_eqb (c_media e) m_json_handler) cs) as [x|] eqn:F.
+  - inversion H; subst. apply find_some in F. tauto.
+  - destruct cs; [discriminate|]. inversion H; subst. left. reflexivity.
 Qed.
 
 (* T2: a secondary 2xx whose JSON entry is the one the handler looks at *)
@@ -170,9 +200,10 @@ Theorem secondary_json : forall reg o p n r m e ct imported,
 Proof.
   intros reg o p n r m e ct imported Hp Hns Hne Hf Hl Hh Hs Hj Hok Hd.
   rewrite (handle_secondary _ _ _ _ _ _ _ Hp Hne Hf Hl). unfold secondary_path. rewrite Hns. rewrite Hh.
-  unfold ideal. rewrite Hs. cbn [andb].
   unfold json_like in Hj. apply andb_true_iff in Hj. destruct Hj as [Hb Ht].
-  apply negb_true_iff in Hb. apply negb_true_iff in Ht. rewrite Hb, Ht.
+  apply negb_true_iff in Hb. apply negb_true_iff in Ht.
+  rewrite (raw_none_member _ e (c_type e) (handler_schema_In _ _ Hh) Hb Ht).
+  unfold ideal. rewrite Hs. cbn [andb]. rewrite Hb, Ht.
   apply (json_path_delivers reg (c_type e) imported Hok Hd).
 Qed.
 
@@ -186,19 +217,15 @@ Proof.
   rewrite (handle_secondary _ _ _ _ _ _ _ Hp Hne Hf Hl). unfold secondary_path, handler_schema. rewrite Hns. rewrite Hc. reflexivity.
 Qed.
 
-(* and ANY secondary 2xx with content is fed to response.json(), whatever its media type (finding F05c):
-   text and bytes are never delivered there *)
-Theorem secondary_never_text_or_bytes : forall reg o p n r m ct imported,
+(* F05c fixed part: a further 2xx response whose content types are all text/* and whose type is str/Any returns
+   response.text (and likewise response.content for binary media) *)
+Theorem secondary_text : forall reg o p n r m h ct imported,
   cprocessed o = Some (p, n) -> st_streaming (resolve o) = false -> m <> n -> find_status m (cothers o) = Some r -> lead2 m = true ->
-  cr_content r <> [] ->
-  delivers imported (handle reg o m ct) WText = false /\ delivers imported (handle reg o m ct) WBytes = false.
+  handler_schema (cr_content r) = Some h -> raw_accessor (cr_content r) (c_type h) = Some PText ->
+  handle reg o m ct = PText /\ delivers imported (handle reg o m ct) WText = true.
 Proof.
-  intros reg o p n r m ct imported Hp Hns Hne Hf Hl Hc.
-  rewrite (handle_secondary _ _ _ _ _ _ _ Hp Hne Hf Hl). unfold secondary_path, handler_schema. rewrite Hns.
-  destruct (find (fun e => str_eqb (c_media e) m_json) (cr_content r)) as [e|].
-  - unfold json_path. destruct (should_use_cattrs reg (show (c_type e))); [destruct (deser_code _ _ _)|]; split; reflexivity.
-  - destruct (cr_content r) as [|e rest]; [congruence|]. cbn [hd_error].
-    unfold json_path. destruct (should_use_cattrs reg (show (c_type e))); [destruct (deser_code _ _ _)|]; split; reflexivity.
+  intros reg o p n r m h ct imported Hp Hns Hne Hf Hl Hh Hraw.
+  rewrite (handle_secondary _ _ _ _ _ _ _ Hp Hne Hf Hl). unfold secondary_path. rewrite Hns, Hh, Hraw. split; reflexivity.
 Qed.
 
 (* T7: streaming primaries *)
@@ -228,7 +255,8 @@ Proof.
   assert (Hr : resolve o = resolve_streaming r).
   { unfold resolve. rewrite Hprim. destruct (cr_content r) as [|e [|e2 rest]]; [congruence| |]; rewrite Hs; reflexivity. }
   assert (Hh : handle reg o n ct = PStreamSse).
-  { rewrite (handle_primary _ _ _ _ _ Hp), Hr. unfold resolve_streaming. rewrite Hb, He. reflexivity. }
+  { assert (Hnd : nd_of o = false) by (unfold nd_of, is_ndjson_resp; rewrite Hprim, He; apply andb_false_r).
+    rewrite (handle_primary _ _ _ _ _ Hp), Hr, Hnd. unfold resolve_streaming. rewrite Hb, He. reflexivity. }
   split; [exact Hh|]. intro e. rewrite Hh. unfold ideal. rewrite Hs, Hb, Hf, He. reflexivity.
 Qed.
 
@@ -303,14 +331,26 @@ Qed.
 Definition class_entry_ok (reg : registry) (n : str) : bool :=
   match alookup n reg with
   | None => true
-  | Some i => negb (is_type_alias i && (opt_str_eqb (si_type i) s_array || opt_str_eqb (si_type i) s_string
-                     || opt_str_eqb (si_type i) s_integer || opt_str_eqb (si_type i) s_number
-                     || opt_str_eqb (si_type i) s_boolean))
+  | Some i => negb (is_type_alias i && (opt_str_eqb (si_type i) s_array
+                     || match si_type i with Some ty => mem_str ty alias_prim_types | None => false end))
   end.
 Definition class_name_ok (n : str) : bool :=
   ident_like n && first_upper n
   && negb (mem_str n builtin_names)
-  && negb (mem_str n [s_Dict; s_List; s_Union; s_Tuple; s_dict; s_list; s_tuple]).
+  && negb (mem_str n not_model_names_cattrs).
+
+Lemma starts_any_absent : forall ps s c, (forall p, In p ps -> In c p) -> ~ In c s -> starts_any ps s = false.
+Proof.
+  intros ps s c Hps Hn. unfold starts_any. induction ps as [|p ps IH]; [reflexivity|]. cbn [existsb].
+  rewrite (prefix_absent p s c); [|apply Hps; left; reflexivity | exact Hn]. apply IH. intros q Hq. apply Hps. right. exact Hq.
+Qed.
+(* every typing-construct prefix of the source table contains "[" (regenerated table, checked by computation) *)
+Lemma construct_prefixes_bracket : forall p, In p construct_prefixes -> In 91 p.
+Proof.
+  assert (H : forallb (fun p => existsb (N.eqb 91) p) construct_prefixes = true) by (vm_compute; reflexivity).
+  intros p Hp. rewrite forallb_forall in H. specialize (H p Hp). apply existsb_exists in H.
+  destruct H as (x & Hx & E). apply N.eqb_eq in E. subst x. exact Hx.
+Qed.
 
 Lemma cut_bracket_ident : forall n, ident_like n = true -> cut_bracket n = n.
 Proof.
@@ -330,23 +370,18 @@ Proof.
   assert (Nlb : ~ In 91 n) by (apply ident_no_char; auto).
   assert (Nsp : ~ In 32 n) by (apply ident_no_char; auto).
   assert (Nbar : ~ In 124 n) by (apply ident_no_char; auto).
-  assert (Ndot : ~ In 46 n) by (apply ident_no_char; auto).
   assert (Clb : contains_s s_lb n = false) by (apply (contains_absent _ _ 91); simpl; auto).
   assert (Hcut : cut_bracket n = n) by (apply cut_bracket_ident; exact Hid).
   assert (Hap : is_alias_to_primitive reg n = false /\ is_alias_to_array reg n = false).
   { unfold is_alias_to_primitive, is_alias_to_array. rewrite Hcut. unfold class_entry_ok in Hr.
     destruct (alookup n reg) as [i|]; [|split; reflexivity].
     apply negb_true_iff in Hr. destruct (is_type_alias i); [|split; reflexivity]. cbn [andb] in *.
-    apply orb_false_iff in Hr. destruct Hr as [Hr H5]. apply orb_false_iff in Hr. destruct Hr as [Hr H4].
-    apply orb_false_iff in Hr. destruct Hr as [Hr H3]. apply orb_false_iff in Hr. destruct Hr as [H1 H2].
-    rewrite H1, H2, H3, H4, H5. split; reflexivity. }
+    apply orb_false_iff in Hr. destruct Hr as [H1 H2]. rewrite H1, H2. split; reflexivity. }
   destruct Hap as [Hprim Harr].
   assert (Hpre : forall p, In 91 p -> prefixb p n = false) by (intros p Hp; apply (prefix_absent _ _ 91); auto).
   assert (Hsu : should_use_cattrs reg n = true).
   { unfold should_use_cattrs. rewrite Clb. cbn [andb]. rewrite Hb.
-    replace (starts_any construct_prefixes n) with false.
-    2:{ symmetry. unfold starts_any, construct_prefixes. cbn [existsb].
-        repeat (rewrite Hpre by (apply in_or_app; right; left; reflexivity)). reflexivity. }
+    rewrite (starts_any_absent construct_prefixes n 91 construct_prefixes_bracket Nlb).
     rewrite Hprim, Harr, Hup, Hl2. cbn [negb andb]. apply orb_true_r. }
   split.
   - unfold heuristic_ok. cbn [show needs_structure]. rewrite Hsu. reflexivity.
